@@ -142,6 +142,11 @@ func hasWildcardComponent(c string) bool {
 		if part == "*" || part == "x" {
 			return true
 		}
+		// past the numeric components (stability suffix, build metadata, branch name)
+		// a dot no longer separates version components: 1.0+build.x, dev-feature.x
+		if strings.ContainsAny(part, "-+") {
+			return false
+		}
 	}
 	return false
 }
